@@ -254,12 +254,26 @@ def check_method(case, ctx: Ctx):
     ctx.label("method_" + (str(bins) if not isinstance(bins, list) else "list"), f"d{d}")
 
     def build():
+        if case.get("default_bins"):
+            # no bin specification at all: ten equal bins per axis between the column's minimum and maximum
+            if case["entry"] == "h2":
+                return physt.h2(arr[:, 0], arr[:, 1], **kwargs)
+            if case["entry"] == "h3_cols":
+                return physt.h3([arr[:, j] for j in range(3)], **kwargs)
+            return physt.h(arr, **kwargs)
         if case["entry"] == "h2":
             return physt.h2(arr[:, 0], arr[:, 1], bins, **kwargs)
         if case["entry"] == "h3_cols":
             return physt.h3([arr[:, j] for j in range(3)], bins, **kwargs)
         return physt.h(arr, bins, **kwargs)
 
+    if case.get("refuse") == "h3_columns":
+        ctx.label("refusal_h3_columns")
+        ctx.nt()
+        ctx.refused("h3 of two-column data", physt.h3, arr[:, :2], 3)
+        ctx.refused("h3 of four-column data", physt.h3, np.hstack([arr, arr])[:, :4], 3)
+        ctx.refused("h2 with columns of different length", physt.h2, arr[:, 0], arr[:-1, 1], 3)
+        return
     if case.get("refuse"):
         # per-axis arguments that do not match the number of axes are refused, never spread over the wrong axes
         ctx.label("refusal_" + case["refuse"])
@@ -271,6 +285,12 @@ def check_method(case, ctx: Ctx):
         ctx.label("binning_refused:" + type(h).__name__)
         return
     require(h.ndim == d, "ndim", f"{h.ndim} vs {d}")
+    if case.get("default_bins"):
+        for j in range(d):
+            e = np.asarray(h.numpy_bins[j], dtype=float)
+            want = np.histogram_bin_edges(arr[:, j], bins=10)
+            require(len(e) == 11 and np.array_equal(e, want), "default_bins", f"axis {j}: {e.tolist()} vs numpy's {want.tolist()}")
+        ctx.label("default_bins")
     if case.get("shared_range"):
         lo, hi = case["kwargs"]["range"]
         for j in range(d):
@@ -308,9 +328,11 @@ def method_cases(draw, tier="quick"):
         lo = float(draw(st.integers(-12, 5)))
         kwargs["range"] = [lo, lo + draw(st.sampled_from([1.0, 4.0, 7.5, 20.0]))]
     elif which == "refuse":
-        refuse = draw(st.sampled_from(["bins_count", "range_count", "kwarg_count"]))
+        refuse = draw(st.sampled_from(["bins_count", "range_count", "kwarg_count", "h3_columns"]))
         other = draw(st.sampled_from([k for k in (1, 2, 3, 4, 5) if k != d and not (k == 2 and refuse == "range_count")]))
-        if refuse == "bins_count":
+        if refuse == "h3_columns":
+            bins = 3
+        elif refuse == "bins_count":
             bins = [draw(st.integers(1, 6)) for _ in range(other)]
         elif refuse == "range_count":
             bins = draw(st.integers(1, 6))
@@ -355,8 +377,9 @@ def method_cases(draw, tier="quick"):
     entry = draw(st.sampled_from({2: ["h", "h2"], 3: ["h", "h3_cols"], 4: ["h"]}[d]))
     if refuse:
         entry = "h"
+    default_bins = which == "int" and not refuse and draw(st.integers(0, 2)) == 0 and all(max(c) > min(c) for c in cols)
     return {"rows": rows, "bins": bins, "kwargs": kwargs, "wkind": wkind, "weights": weights, "entry": entry,
-            "shared_range": which == "shared_range", "refuse": refuse}
+            "shared_range": which == "shared_range", "refuse": refuse, "default_bins": default_bins}
 
 
 FINDINGS = []
